@@ -107,13 +107,17 @@ def gen_corr(rng):
             'range': None if rngv is None else (cast(rngv[0]), cast(rngv[1])), 'typ': typ, 'exact6': exact6}
 
 
-def make_obj(f):
+def make_obj(f, units=None):
     from pgradd.ThermoChem import ThermochemGroup
     with L.quiet():
         if not f.get('history'):
             return ThermochemGroup(f['H'], f['S'], dict(f['cp']), f['Tref'], f['range'])
         # the same correlation reached through the public API after the object was already formatted: it held other reference
-        # values where the final one has none, one more heat-capacity point, a wider range; each is formatted, then withdrawn
+        # values where the final one has none, one more heat-capacity point, a wider range; each is withdrawn in turn, and the
+        # object is formatted (in the units of the case, non-dimensionally and in one fixed dimensional choice) before the first
+        # and after every step, so that a text remembered across ANY single mutator shows in the final text.  The mutators that
+        # rebuild the table correlation come first, those that only drop an attribute last: a later rebuild must not tidy up
+        # after an earlier omission
         table = dict(f['cp'])
         ts = sorted(table)
         tx = None
@@ -124,19 +128,28 @@ def make_obj(f):
         if tx is not None:
             more[tx] = 1.75
         o = ThermochemGroup(f['H'] if f['H'] is not None else 12.5, f['S'] if f['S'] is not None else -3.25, more, f['Tref'], wide)
-        for u in ({}, {'molar enthalpy': 'kJ/mol', 'molar entropy': 'J/(mol K)', 'molar heat capacity': 'J/(mol K)', 'temperature': 'K'}):
-            try:
-                o.yaml_format(u)
-            except Exception:
-                pass
-        if f['H'] is None:
-            o.del_ND_H_ref()
-        if f['S'] is None:
-            o.del_ND_S_ref()
+
+        def use():
+            for u in ({}, {'molar enthalpy': 'kJ/mol', 'molar entropy': 'J/(mol K)', 'molar heat capacity': 'J/(mol K)', 'temperature': 'K'},
+                      units):
+                if u is None:
+                    continue
+                try:
+                    o.yaml_format(u)
+                except Exception:
+                    pass
+        use()
         if tx is not None:
             o.del_ND_Cp(tx)
+            use()
         if wide is not None:
             o.set_range(f['range'])
+            use()
+        if f['H'] is None:
+            o.del_ND_H_ref()
+            use()
+        if f['S'] is None:
+            o.del_ND_S_ref()
         return o
 
 
@@ -181,7 +194,7 @@ def check_one(ctx, f, units, batch, label):
     """format one correlation, reload it twice, compare with the original (spec) and queue the model comparison"""
     from pgradd import yaml_io
     inp = {'corr': show_fields(f), 'units': units, 'label': label}
-    obj = make_obj(f)
+    obj = make_obj(f, units)
     orig = L.obs_corr(obj)
     try:
         with L.quiet():
